@@ -73,6 +73,7 @@ type faultDS struct {
 	slowNs     atomic.Int64 // > 0: every Next sleeps that long first (a slow datastore)
 	panicOnFire bool        // the fired trigger panics inside the datastore iterator instead of returning an error
 	nexts       atomic.Int64 // number of iterator Next calls served (a measure of the work a query causes)
+	noClose     bool         // Close does not close the wrapped (shared) datastore
 	openArmed  bool
 	openCount  int
 	failOpenAt int
@@ -227,6 +228,8 @@ type CacheCfg struct {
 	IterMax    int    `json:"iter_max"`
 	Engine     string `json:"engine"` // v1 | v2
 	Breadth    int    `json:"breadth"`
+	// Backend: "" memory, "sqlite": the process-wide sqlite datastore (rows bound to the query's context)
+	Backend string `json:"backend,omitempty"`
 }
 
 func (c CacheCfg) options() []server.OpenFGAServiceV1Option {
@@ -257,12 +260,29 @@ func newCachedSUT(cfg CacheCfg, withFaults bool) (*sut.SUT, *countingCache, *fau
 	cc := newCountingCache()
 	var ds storage.OpenFGADatastore = semkit.Plain().DS
 	var fd *faultDS
-	if withFaults {
+	if cfg.Backend == "sqlite" {
+		if sp, _, err := sqliteServers(); err == nil {
+			// the process-wide sqlite datastore must survive the Close of this case's server
+			fd = &faultDS{OpenFGADatastore: sp.DS, noClose: true}
+			ds = fd
+		}
+	}
+	if withFaults && fd == nil {
 		fd = &faultDS{OpenFGADatastore: ds}
 		ds = fd
 	}
 	s := sut.NewWithDS(ds, append(cfg.options(), server.WithCheckCache(cc))...)
+	if !withFaults {
+		fd = nil
+	}
 	return s, cc, fd
+}
+
+// Close leaves a shared datastore open.
+func (f *faultDS) Close() {
+	if !f.noClose {
+		f.OpenFGADatastore.Close()
+	}
 }
 
 // ---- operations -----------------------------------------------------------
